@@ -54,14 +54,23 @@ def check(run, model, tier):
         raise AnalysisError('SingletonDecorator.__call__/__init__ not found')
     selfn = call.params[0]
     # the slot: attribute of self that __call__ returns
+    # the slot: the attribute of self that receives the constructed object (the call of the decorated class kept in __init__)
+    klass_attrs = set()
+    for n in walk_shallow(init.node):
+        if isinstance(n, ast.Assign) and isinstance(n.value, ast.Name) and n.value.id in init.params[1:]:
+            for t in n.targets:
+                d = dotted(t)
+                if d and d.startswith(init.params[0] + '.'):
+                    klass_attrs.add(d.split('.', 1)[1])
     slots = set()
     for n in walk_shallow(call.node):
-        if isinstance(n, ast.Return) and n.value is not None:
-            d = dotted(n.value)
-            if d and d.startswith(selfn + '.'):
-                slots.add(d.split('.', 1)[1])
+        if isinstance(n, ast.Assign) and isinstance(n.value, ast.Call) and dotted(n.value.func) in {selfn + '.' + k for k in klass_attrs}:
+            for t in n.targets:
+                d = dotted(t)
+                if d and d.startswith(selfn + '.'):
+                    slots.add(d.split('.', 1)[1])
     if len(slots) != 1:
-        raise AnalysisError('cannot identify the instance slot returned by SingletonDecorator.__call__ (got %s)' % sorted(slots))
+        raise AnalysisError('cannot identify the instance slot of SingletonDecorator.__call__ (the attribute that receives the constructed object): %s' % sorted(slots))
     slot = slots.pop()
     locks = lock_attrs(model, cls)
     par = parents(call.node)
@@ -126,7 +135,16 @@ def check(run, model, tier):
     g = cfg_of(call)
     rets = [n for n in g.nodes if n.kind == 'stmt' and isinstance(n.ast, ast.Return)]
     falls = [p for p, lab in g.pred[g.exit] if lab != 'return']
-    ok = all(r.ast.value is not None and dotted(r.ast.value) == '%s.%s' % (selfn, slot) for r in rets) and not falls
+    def returns_slot(v):
+        if v is None:
+            return False
+        if dotted(v) == '%s.%s' % (selfn, slot):
+            return True
+        if isinstance(v, ast.Name):
+            defs_ = [n for n in walk_shallow(call.node) if isinstance(n, ast.Assign) and any(isinstance(t, ast.Name) and t.id == v.id for t in n.targets)]
+            return bool(defs_) and all(dotted(n.value) == '%s.%s' % (selfn, slot) or any(dotted(t) == '%s.%s' % (selfn, slot) for t in n.targets) for n in defs_)
+        return False
+    ok = all(returns_slot(r.ast.value) for r in rets) and not falls
     run.inst('RETURNS.singleton', call, 'returns ' + slot, ok, 'some path of __call__ does not return the shared slot')
     # the slot is initialised empty in __init__
     init_ok = any(isinstance(n, ast.Assign) and any(dotted(t) == 'self.' + slot for t in n.targets) and is_none(n.value)
